@@ -420,11 +420,27 @@ def guard_so(prog) -> bool:
     return all(use_ok(s) for s in prog["body"])
 
 
+def swrites(s):
+    """the names a statement binds or mutates (parser._written_names; DListLen.swrites)"""
+    k = s[0]
+    if k in (0, 1, 2, 3, 4, 8, 9, 12, 13):
+        return [s[1]]
+    if k == 10:
+        return list(s[1])
+    return []
+
+
 def track_py(prog):
-    """mirror of coq/Device/DListLen.v (track1, len_ok) for the oracle's guard, cross-checked against the model on every
-    case: the parser's parse-time copy of every list.  -> (len_ok, [folded len() of every len() read of the body, -1 = run-time],
-    [folded len() of every `for i in range(len(y))` of the body])"""
+    """mirror of coq/Device/DListLen.v (track1, loop_env, rebound, len_ok) for the oracle's guard, cross-checked against the
+    model on every case: the REPAIRED parser's parse-time copy of every list (an append / remove with a run-time argument
+    and every write under an `if` take the copy away; the body of `while True:` is parsed without the copies of the names
+    it writes; a function body does not fold names with more than one write site).
+    -> (len_ok, [folded len() of every len() read of the body, -1 = run-time],
+        [folded len() of every `for i in range(len(y))` of the body])"""
     t, decl, ok, folded, folded_for = {}, [], True, [], []
+    gates = prog.get("gates") or [-1] * len(prog["body"])
+    sites = [x for s in prog["setup"] + prog["body"] for x in swrites(s)]
+    rebound = {x for x in sites if sites.count(x) > 1}
 
     def cur(x):
         v = t.get(x)
@@ -455,7 +471,7 @@ def track_py(prog):
             key = tuple(s[2:6])
             if key not in fenv:
                 return True          # the function's first call: its list variant is parsed here, with the copies as they are now
-            c0 = fenv[key].get(y)          # the copy at the function's FIRST call
+            c0 = fenv[key].get(y)          # the copy the function body was parsed with
             return c0 is None or (cur(y) is not None and len(cur(y)) == len(c0))
         if k == 10:
             xs, rs = s[1], s[2]
@@ -474,20 +490,36 @@ def track_py(prog):
         if k in (0, 1):
             if not in_setup or s[1] in decl or is_g:
                 ok = False
-            t[s[1]] = list(s[2]) if k == 0 else None
+            if is_g:
+                t[s[1]] = None
+            else:
+                t[s[1]] = list(s[2]) if k == 0 else None
             if s[1] not in decl:
                 decl.append(s[1])
             return
-        if not use_ok(s) or (is_g and (in_setup or k not in (5, 6, 14, 15, 17, 18))) or (in_setup and k in (17, 18)):
+        if not use_ok(s) or (is_g and in_setup) or (in_setup and k in (17, 18)):
             ok = False
         x = s[1]
         if k == 17 and tuple(s[2:6]) not in fenv:
-            fenv[tuple(s[2:6])] = {z: (list(v) if isinstance(v, list) else None) for z, v in t.items()}
+            fenv[tuple(s[2:6])] = {z: (list(v) if isinstance(v, list) and z not in rebound else None) for z, v in t.items()}
+        if k == 14 and not in_setup:
+            cy = cur(s[2])
+            folded.append(len(cy) if cy is not None else -1)
+        elif k == 15:
+            cy = cur(s[2])
+            folded_for.append(len(cy) if cy is not None else -1)
+        if is_g:
+            for z in swrites(s):          # parsed on a private copy; forgotten after the `if`
+                t[z] = None
+            return
         c = cur(x) if k != 10 else None
         if k in (3, 8, 12):
             v = arg_val(s)
             if c is not None:
-                c.append(v)
+                if v is not None:
+                    c.append(v)
+                else:
+                    t[x] = None
         elif k in (4, 9, 13):
             v = arg_val(s)
             if c is not None:
@@ -495,25 +527,21 @@ def track_py(prog):
                     if v in c:
                         c.remove(v)
                     else:
-                        ok = False          # the list shrinks (when Python does not raise), the copy does not
-                elif c:
-                    c.pop(0)
-        elif k == 2 and not is_g:
+                        ok = False          # remove_hits: CPython raises (or the list shrinks and the copy does not)
+                else:
+                    t[x] = None
+        elif k == 2:
             t[x] = None
-        elif k == 10 and not is_g:
+        elif k == 10:
             for z in s[1]:
                 t[z] = None
-        elif k == 14 and not in_setup:
-            cy = cur(s[2])
-            folded.append(len(cy) if cy is not None else -1)
-        elif k == 15:
-            cy = cur(s[2])
-            folded_for.append(len(cy) if cy is not None else -1)
 
     for s in prog["setup"]:
         step(s, -1, True)
+    for s in prog["body"]:                # loop_env: the body is parsed without the copies of the names it writes
+        for z in swrites(s):
+            t[z] = None
     at_loop = {x: len(v) for x, v in t.items() if isinstance(v, list)}
-    gates = prog.get("gates") or [-1] * len(prog["body"])
     for s, g in zip(prog["body"], gates):
         step(s, g, False)
     for x, n in at_loop.items():
@@ -1357,7 +1385,7 @@ def load_findings(ctx):
     if p.exists():
         for f in json.loads(p.read_text()):
             items[f["id"]] = f          # the work package's own file is the newer one
-    return [f for f in items.values() if f.get("kind") != "fixed"]
+    return list(items.values())          # kind=fixed entries too: a fixed entry suppresses nothing, its witness is replayed
 
 
 def finding_reproduces(f) -> bool:
@@ -1633,7 +1661,14 @@ def run(ctx: C.Ctx):
     for f in load_findings(ctx):
         try:
             if finding_reproduces(f):
-                ctx.known(f"{f['id']}: {f['what']}")
+                if f.get("kind") == "fixed":
+                    # a repaired defect is back: a property failure, with the witness as replay
+                    w = f["witness"]
+                    ctx.fail(f"the repaired defect {f['id']} is back: the firmware run of its witness is {w.get('expect')} although CPython raises no exception",
+                             {"finding": f["id"], "script": w.get("script"), "program": w.get("program")},
+                             "memory-safe run, heap usage constant", w.get("expect"), key="fixed-finding-returned:" + f["id"])
+                else:
+                    ctx.known(f"{f['id']}: {f['what']}")
         except Exception as e:  # noqa
             ctx.notes.append(f"replay of {f['id']} failed to run: {e}")
 
